@@ -220,6 +220,21 @@ func init() {
 					}
 				}
 				out = append(out, 0) // no id
+			case 4:
+				// what the user typed after '@' (bytes): client.ResolveWebfinger
+				bs := r.list()
+				nb := make([]byte, len(bs))
+				for j, x := range bs {
+					nb[j] = byte(x)
+				}
+				link, err := client.ResolveWebfinger(string(nb))
+				ms := int(time.Since(t0) / time.Millisecond)
+				if err != nil {
+					out = append(out, 1, ms)
+				} else {
+					out = putText(append(out, 0, ms, 3), link)
+					out = append(out, 0)
+				}
 			case 1:
 				input := r.jv()
 				si := r.next()
